@@ -1,2 +1,57 @@
-From Model Require Import Base.
-Example C06_placeholder : True. Proof. exact I. Qed.
+(* C06 - cursor and selection stay inside the buffer; movements never edit.
+   Property theorems only; proofs are in Proofs/BoundsP.v and Proofs/EditorP.v. *)
+From Coq Require Import String.
+From Model Require Import Base Uni Utf8 Notation Inputrc HistFile Editor.
+From Proofs Require Import EditorP BoundsP.
+Open Scope Z_scope.
+
+(* After EVERY command the main loop runs (the command, a pending vi operator, the
+   cursor check, the undo save), whatever the command, its keys and the state it
+   started from: 0 <= cursor <= length, and in vi command mode the cursor is on a
+   character unless the buffer or the cursor's line is empty. *)
+Theorem C06_cursor_inside_buffer_after_every_command : forall name keys mk mx e e',
+  run_one name keys mk mx e = Ok e' ->
+  0 <= cpos e' <= llen e' /\
+  (kmain e' = M_vicmd -> cpos e' < llen e' \/ c_on_empty_line e' = Ok true).
+Proof. exact run_one_cursor_bounds. Qed.
+
+(* An active selection as the API reports it (Selection.Pos) lies inside the buffer. *)
+Theorem C06_selection_inside_buffer : forall e e1 b ep, s_pos e = (e1, b, ep) ->
+  (b = -1 /\ ep = -1) \/ (0 <= b <= llen e /\ (ep = -1 \/ b <= ep <= llen e)).
+Proof.
+  intros e e1 b ep H. unfold s_pos in H.
+  destruct ((llen e =? 0) || negb (s_active (sel e))); [inversion H; left; split; reflexivity|].
+  destruct (s_check_range e (s_bpos (sel e)) (s_epos (sel e))) as [[b0 ep0] ok] eqn:E1.
+  destruct ok; cbn [negb] in H.
+  2:{ inversion H; subst. unfold s_check_range in E1.
+      repeat match type of E1 with context[if ?c then _ else _] => destruct c end; inversion E1; left; split; reflexivity. }
+  match type of H with context[c_check_append ?x] => set (ea := c_check_append x) in * end.
+  destruct (if ep0 =? -1 then s_select_to_cursor ea b0 else (b0, ep0)) as [b1 ep1].
+  destruct (s_check_range ea b1 (if s_visual (sel ea) then ep1 + 1 else ep1)) as [[b2 ep2] ok2] eqn:E2.
+  destruct ok2; cbn [negb] in H; inversion H; subst; [|left; split; reflexivity].
+  right. apply s_check_range_out in E2. change (llen ea) with (llen e) in E2. tauto.
+Qed.
+
+(* The commands documented as pure movements (and the numeric-argument commands) leave
+   the text of the buffer exactly as it was - every state, argument and key. *)
+Theorem C06_movements_never_edit : forall name keys mk mx e e',
+  In name pure_commands -> run_command name keys mk mx e = Ok e' -> line e' = line e.
+Proof. exact pure_commands_keep_line. Qed.
+
+(* The yank operator leaves the buffer unchanged (C17's theorem, restated here). *)
+Theorem C06_yank_operator_never_edits : forall e ed ey,
+  cmd_vi_delete_sel e = Ok ed -> cmd_vi_yank_sel e = Ok ey -> line ey = line e.
+Proof. intros e ed ey Hd Hy. exact (proj1 (vi_delete_yank_commands_agree e ed ey Hd Hy)). Qed.
+
+(* non-vacuity: the list is the one intended, and a command sequence ending in vi
+   command mode at the end of the text *)
+Example C06_example :
+  (16 =? zlen pure_commands) = true /\
+  match fold_left (fun r c => match r with Ok e => run_one (zs "self-insert") [c] true (-1) e | x => x end)
+                  [97; 98; 99] (Ok (ed_init true [])) with
+  | Ok e => match run_one (zs "vi-movement-mode") [27] true (-1) e with
+            | Ok e' => (cpos e' =? 2) && (llen e' =? 3)
+            | _ => false end
+  | _ => false
+  end = true.
+Proof. split; vm_compute; reflexivity. Qed.
